@@ -667,6 +667,40 @@ def shrink(repo, viol, budget_s=90.0, log=None):
         ch |= drop_records_ddmin()
         if not ch or over():
             break
+
+    def small_scope_research():
+        """Shape-dependent bugs (records vs. batch vs. cores) do not shrink by dropping records one
+        chunk at a time: search the small shapes directly (prefixes of the workload, batch 1-2, cores
+        1-4, a few seeded schedules each) for the same violation key, smallest shapes first."""
+        nonlocal case, dec
+        if case["wl"]["n"] <= 3 or case["cfg"].get("faults"):
+            return False
+        base_cfg = case["cfg"]
+        shapes = sorted(((n, c, b) for n in range(1, min(case["wl"]["n"], 12)) for c in (1, 2, 3, 4) for b in (1, 2)), key=lambda t: (t[0], t[1], t[2]))
+        for n, c, b in shapes:
+            if over() or n >= case["wl"]["n"]:
+                return False
+            for variant in range(3):
+                cc = dict(case)
+                cc["wl"] = workload.drop_records(case["wl"], list(range(n)))
+                cfg = json.loads(json.dumps(base_cfg))
+                cfg.update(cores=c, batch=b, cpu_count=16)
+                if variant == 0:
+                    cfg["policy"] = {"name": "benign"}
+                else:
+                    cfg["seed"] = "%s:small:%d:%d:%d:%d" % (base_cfg.get("seed"), n, c, b, variant)
+                cc["cfg"] = cfg
+                tried[0] += 1
+                r, v, _ = run_case(repo, cc, decisions=None)
+                if not (r.harness_error or r.unsupported) and _same(v, key):
+                    case = cc
+                    dec = list(r.decisions)
+                    return True
+        return False
+
+    if small_scope_research():
+        simplify_cfg()
+        drop_records_ddmin()
     shrink_decisions()
     if not over():
         # with few forced decisions left, records and workers that no longer matter can go
